@@ -45,16 +45,27 @@ theorem manager_survives_unregistered_master (cfg : Manager.Cfg) (i : Manager.In
     cases hs
   · exact hp h
 
-/-- the switchover procedure dies only if a host it works on (published list, old master, chosen master) has no
-entry in one of the two views, or if no position at all was collected -/
+/-- the switchover procedure can die only after the second cluster view was taken: on a host it works on (published
+list, requested target, a collected position's host) that has no entry in THAT view — a host removed from the
+cluster while the procedure runs — or if no position at all was collected.  (Before fix fc0b66f also every host of the
+published list and the recorded master that is missing from the FIRST view: a crash loop while the request is pending.) -/
 theorem switchover_panics_only_if (cfg : Switchover.Cfg) (i : Switchover.In) (site : String)
     (h : Switchover.Step.panic site ∈ Switchover.performSwitchover cfg i) :
-    (∃ x, (x ∈ Switchover.workList i ∨ x = i.oldMaster) ∧ Switchover.pingOk i.cs x = none) ∨
     (∃ x, (x ∈ Switchover.workList i ∨ x = i.sw.to ∨ ∃ ps p, i.positions = some ps ∧ p ∈ ps ∧ x = p.host) ∧
       Switchover.pingOk i.cs2 x = none) ∨
     i.positions = some [] := by
-  -- (an earlier version of the middle disjunct did not restrict `x` and was therefore always true; tightened)
-  exact RobustLemmas.switchover_panics_only_if_precise cfg i site h
+  rcases RobustLemmas.switchover_panics_only_if_precise cfg i site h with ⟨x, hx, hn⟩ | h2 | h3
+  · exact absurd hn (RobustLemmas.switchover_panic_first_view_complete cfg i site h x hx)
+  · exact Or.inl h2
+  · exact Or.inr h3
+
+/-- … in particular a recorded master or a listed host that is not registered when the procedure starts makes it FAIL,
+not die, and nothing is touched -/
+theorem switchover_unregistered_host_fails_cleanly (cfg : Switchover.Cfg) (i : Switchover.In) (x : String)
+    (hx : x ∈ Switchover.workList i ∨ x = i.oldMaster) (hn : Switchover.pingOk i.cs x = none) (site : String) :
+    Switchover.Step.panic site ∉ Switchover.performSwitchover cfg i := by
+  intro h
+  exact RobustLemmas.switchover_panic_first_view_complete cfg i site h x hx hn
 
 /-- the recovery check never dies (two sites before the fixes) -/
 theorem recovery_never_panics (i : Recovery.In) (site : String) : Recovery.Act.panic site ∉ Recovery.checkRecovery i :=
